@@ -101,6 +101,31 @@ class Ctx:
         return c
 
 
+def mk_if(c, a, b):
+    """canonical conditional: a negated test is the positive test with the branches exchanged"""
+    c = c.strip()
+    while c.startswith('(negb ') and c.endswith(')') and balanced(c[6:-1]):
+        c = c[6:-1].strip()
+        a, b = b, a
+    return f'(if {c} then {a} else {b})'
+
+
+def balanced(t):
+    """is t one complete term (so that `(negb t)` is exactly the negation of t)?"""
+    t = t.strip()
+    if not t.startswith('('):
+        return ' ' not in t
+    d = 0
+    for i, ch in enumerate(t):
+        if ch == '(':
+            d += 1
+        elif ch == ')':
+            d -= 1
+            if d == 0:
+                return i == len(t) - 1
+    return False
+
+
 def is_effect(ctx, e):
     """does evaluating e call a fuel-consuming method / index a dict (option-valued)?"""
     for n in ast.walk(e):
@@ -152,13 +177,13 @@ def tr(ctx, e, k):
     if isinstance(e, ast.IfExp):
         def kt(tt, tyt):
             if tyt == 'dict':
-                tt = f'negb (isnil {tt})'
+                tt = f'(negb (isnil {tt}))'
             elif tyt != 'bool':
                 die(e, f'conditional expression on a condition of type {tyt}')
             if is_effect(ctx, e.body) or is_effect(ctx, e.orelse):
                 die(e, 'effectful branch of a conditional expression outside return position')
             return tr(ctx, e.body, lambda ta, tya: tr(ctx, e.orelse, lambda tb, tyb:
-                      k(f'(if {tt} then {ta} else {tb})', tya) if tya == tyb else die(e, 'branches of different type')))
+                      k(mk_if(tt, ta, tb), tya) if tya == tyb else die(e, 'branches of different type')))
         return tr(ctx, e.test, kt)
     if isinstance(e, ast.Dict) and not e.keys:
         return k('[]', 'dict')
@@ -212,6 +237,10 @@ def tr(ctx, e, k):
                 return k(acc, 'bool')
 
             def kv(t, ty):
+                if ty == 'dict' and acc is None and len(vals) == 2 and not is_effect(ctx, vals[1]):
+                    # `D or E` = D if D else E;  `D and E` = E if D else D   (a dict is true when it is not empty)
+                    return tr(ctx, vals[1], lambda t2, ty2: k(mk_if(f'(negb (isnil {t}))', t2 if is_and else t, t if is_and else t2), 'dict')
+                              if ty2 == 'dict' else die(e, f'dict {"and" if is_and else "or"} {ty2}'))
                 if ty != 'bool':
                     die(e, f'boolean operator on {ty}')
                 if acc is None:
@@ -557,7 +586,7 @@ def block(ctx, stmts, rty):
         c = tr_cond(ctx, s.test)
         a = block(ctx.copy(), s.body, rty)
         b = block(ctx, rest, rty)
-        return f'(if {c} then {a} else {b})'
+        return mk_if(c, a, b)
     if isinstance(s, ast.Assert):
         return tr(ctx, s.test, lambda t, ty: f'(if {t} then {block(ctx, rest, rty)} else None)' if ty == 'bool' else die(s, 'assert'))
     if isinstance(s, (ast.Assign, ast.AnnAssign)):
@@ -583,9 +612,10 @@ def block(ctx, stmts, rty):
             return loop(ctx, tgt.id, rest[0], rest[1:], rty)
 
         def ka(t, ty):
-            v = ctx.fresh('v')
-            ctx.env[tgt.id] = (v, ty)
-            return f'(let {v} := {t} in {block(ctx, rest, rty)})'
+            # a local is its (already evaluated, effect-free) value: no `let`, so naming or not naming an intermediate
+            # result gives the same term
+            ctx.env[tgt.id] = (t, ty)
+            return block(ctx, rest, rty)
         return tr(ctx, s.value, ka)
     if isinstance(s, ast.Expr) and isinstance(s.value, ast.Constant):
         return block(ctx, rest, rty)
@@ -846,7 +876,7 @@ def fblock(ctx, stmts, cont):
                 die(test, f'condition of type {ty}')
             a = fblock(ctx.copy(), s.body, after)
             b = fblock(ctx.copy(), s.orelse, after) if s.orelse else after(ctx.copy())
-            return f'(if {t} then {a} else {b})'
+            return mk_if(t, a, b)
         return tr(ctx, test, kt)
     if isinstance(s, ast.For):
         # for a, b in <list parameter>: body   -- a local structural loop; the loop state = the dict variables assigned in the body
